@@ -302,7 +302,9 @@ StoreOutcomes(c, s, F, nextgot) ==
        LET rev    == IF c.nf = "exptime" /\ c.nc = "rev" THEN c.rev ELSE 0
            accept == rev = 0 \/ rev > Abs(x.ver) \/ x.st = "wild"
            ver2   == IF x.st = "wild" THEN 0 ELSE IF rev = 0 THEN Abs(x.ver) + 1 ELSE rev
-           r2     == [st |-> "live", vid |-> c.vid, flag |-> c.flag, ver |-> ver2, len |-> n, isnum |-> FALSE, num |-> 0, disk |-> FALSE]
+           \* (an explicit revision against an unknown version may be taken or ignored: the key stays unknown)
+           r2     == IF x.st = "wild" /\ rev > 0 THEN WildRef
+                     ELSE [st |-> "live", vid |-> c.vid, flag |-> c.flag, ver |-> ver2, len |-> n, isnum |-> FALSE, num |-> 0, disk |-> FALSE]
        IN IF accept
             THEN {with(Plain(nr({Pt("STORED")}), [s EXCEPT !.ref[kr.name] = r2, !.backlog = s.backlog \/ n > 0]), sbuf("wbuf"), "")}
             ELSE {with(Plain(nr({Pt("STORED")}), s), sbuf("freed"), "")}
